@@ -601,6 +601,14 @@ def class_pairs():
             "class Sub extends Vault { public constructor() -> Sub { %s return this; } }\nfunction main() -> void { Sub s = new Sub(); echo(s.n); }")
     P.append(("private base constructor reached from a subclass", "implicit super()", isup % ("private", ""), isup % ("protected", "")))
     P.append(("private base constructor reached from a subclass", "explicit super()", isup % ("private", "super();"), isup % ("public", "super();")))
+    # a method that declares a result returns one along every path, like a function
+    mr = ("class C { public constructor() -> C = default;\n  public %sfunction g(int k) -> int { %s } }\n"
+          "function main() -> void { C c = new C(); int r = %s; echo(r + 1); }")
+    for pos, st, call, bad_s, good_s in [("instance method, no return at all", "", "c.g(1)", "int z = k;", "return k;"),
+                                         ("instance method, one branch falls off the end", "", "c.g(1)", "if (k > 0) { return 1; }", "if (k > 0) { return 1; } return 0;"),
+                                         ("static method, no return at all", "static ", "C.g(1)", "int z = k;", "return k;"),
+                                         ("static method, loop body only", "static ", "C.g(1)", "while (k > 0) { return 1; }", "while (k > 0) { return 1; } return 0;")]:
+        P.append(("a non-void method that does not return along every path", pos, mr % (st, bad_s, call), mr % (st, good_s, call)))
     # super.m() runs the base version: a body-less (abstract) method has none
     sm = ("abstract class S { public constructor() -> S = default; public virtual function m() -> int%s }\n"
           "class D extends S { public constructor() -> D = default; public override function m() -> int { return %s + 10; } }\n"
